@@ -3,12 +3,13 @@ from pyvc.api import *
 import C14 as c14
 
 PROP = 'C15'
-VARIANTS = ['size', 'init', 'locks']
+VARIANTS = ['size', 'init', 'locks', 'fork']
 REPLAYERS = {q: 'replayers/shared_values.py' for q in (
     'heap.BufferWrapper.__init__', 'sharedctypes.rebuild_ctype', 'sharedctypes._new_value', 'sharedctypes.RawValue',
     'sharedctypes.RawArray', 'sharedctypes.getvalue', 'sharedctypes.setvalue', 'sharedctypes.getraw', 'sharedctypes.setraw',
     'sharedctypes.SynchronizedBase.__enter__', 'sharedctypes.SynchronizedBase.__exit__', 'sharedctypes.SynchronizedBase.__init__',
     'sharedctypes.SynchronizedArray.__getitem__', 'sharedctypes.SynchronizedArray.__setitem__')}
+REPLAYERS['heap.Heap.malloc'] = 'replayers/heap_ops.py'
 
 ASSUMPTIONS = [
     'ctypes: sizeof(t) >= 0 is the size of every instance of t, sizeof(t * n) == n * sizeof(t); t.from_buffer(buf) is an object '
@@ -27,10 +28,57 @@ _sizeof = z3.Function('ctypes_sizeof', Val, z3.IntSort())
 _arr = z3.Function('ctypes_array_type', Val, z3.IntSort(), Val)
 
 
+def malloc_after_fork(w):
+    """Heap.malloc in a child, the first time after a fork: the heap the child inherited describes arenas that are shared
+    with the parent (and every sibling); nothing of it may be handed out -- the child starts from an empty heap, which is
+    what Heap.__init__ establishes (its contract, proved in C14: starts_empty, belongs_to_the_calling_process).  Checked
+    at the moment the allocation proper starts (the calls of _free_pending_blocks and _malloc): the indexes, the set of
+    live blocks and the pending list are empty and the heap carries this process's pid"""
+    items = c14.build(w)
+    by = {c.qualname: c for c in items}
+    full = by['heap.Heap.__init__']
+    keep = ('starts_empty', 'belongs_to_the_calling_process', 'lock_is_free_and_not_reentrant')
+    w.contracts['heap.Heap.__init__'] = Contract(
+        'heap.Heap.__init__', prop=PROP, params=dict(full.params), modifies=list(full.modifies),
+        ensures={k: full.ensures[k] for k in keep})
+    pub = by['heap.Heap.malloc']
+    S_, A_, PD_ = 'self._start_to_block', 'self._allocated_blocks', 'self._pending_free_blocks'
+
+    def discarded(ex, what):
+        me = ex.root.scopes[0]['self']
+        prove(ex, 'fork.the_inherited_heap_is_discarded_before_%s' % what,
+              ex.spec_bool('len(%s) == 0 and len(%s) == 0 and len(%s) == 0 and self._lastpid == g.pid' % (S_, A_, PD_),
+                           {'self': me}))
+
+    def ext_drain(ex, args, kw):
+        discarded(ex, 'pending_blocks_are_freed')
+        return SNone()
+
+    def ext_malloc(ex, args, kw):
+        discarded(ex, 'a_block_is_chosen')
+        a = SRef(ref('Arena'), ex.path.new_id('Arena'))
+        lo, hi = IntS.fresh('start'), IntS.fresh('stop')
+        ex.path.assume(z3.And(lo.e >= 0, hi.e >= lo.e + args[1].e))
+        return STup([a, lo, hi])
+    return Contract(
+        'heap.Heap.malloc', prop=PROP, variants=['fork'], params=dict(pub.params), inline=list(pub.inline),
+        externals=dict(pub.externals, **{'heap.Heap._free_pending_blocks': ext_drain, 'heap.Heap._malloc': ext_malloc,
+                                         'heap.Heap._free': lambda ex, a, k: SNone(),
+                                         'mmap.PAGESIZE': lambda ex, a, k: mk_int(4096)}),
+        requires={'size': '0 <= size', 'in_a_child_after_fork': 'self._lastpid != g.pid',
+                  'objects': 'allocated(self._lock) and allocated(%s) and allocated(%s) and allocated(%s)' % (S_, A_, PD_)},
+        modifies=['self.*', 'Lock.*', 'set<tup[ref[Arena],int,int]>.*'], returns=pub.returns,
+        ensures={'the_heap_now_belongs_to_this_process': 'self._lastpid == g.pid'},
+        raises=dict(pub.raises),
+    )
+
+
 def build(w, variant='size'):
     if variant == 'locks':
         import c15_locks
         return c15_locks.build_locks(w, PROP)
+    if variant == 'fork':
+        return [malloc_after_fork(w)]
     c14.build(w)
     malloc = [c for c in c14.build(w) if c.qualname == 'heap.Heap.malloc'][0]
     w.contracts['heap.Heap.malloc'] = malloc
@@ -231,7 +279,10 @@ MANIFEST_ENTRY = {
             'and SynchronizedArray.__getitem__/__setitem__ touch the shared object only while the wrapper\'s own lock is held '
             '(guarded-by obligations on every access), acquire it once and give it back on every way out; '
             'SynchronizedBase.__enter__/__exit__ take and release that same lock; the constructor keeps the lock it is given, '
-            'makes a new one only when none is given, and binds acquire/release to it.',
+            'makes a new one only when none is given, and binds acquire/release to it.  Heap.malloc in a child after fork '
+            '(variant fork): the inherited heap -- whose arenas are shared with the parent -- is discarded before anything is '
+            'allocated: when the pending blocks are freed and when a block is chosen, the indexes, the live set and the '
+            'pending list are empty and the heap carries the child\'s pid (over Heap.__init__\'s contract, C14).',
     'note': 'Own storage, zero / initial value, and the lock discipline of the accessors.  Cross-process visibility, and that the '
             'lock discipline yields atomic read-modify-write under contention, are interleaving properties of processes, out of '
             'reach of contracts; ctypes itself (sizeof, from_buffer, memset, __init__) and the RLock are assumed contracts.  The '
